@@ -173,6 +173,13 @@ func (n *normalizer) qualifierFor(f *ast.File, missing *[]*types.Package) types.
 // bodyText renders the callee body with parameters renamed and returns rewritten.
 // retFmt receives the rendered result expressions and produces the replacement statement.
 func (n *normalizer) bodyText(fd *ast.FuncDecl, file *ast.File, prefix string, subst map[types.Object]string, retStmt func(results string, nres int) string) (string, bool) {
+	return n.bodyTextX(fd, file, prefix, subst, retStmt, nil, nil)
+}
+
+// bodyTextX: as bodyText; retTail (optional) returns extra text to run after the assignment of
+// one particular return statement instead of leaving the inlined block (the caller's failure
+// handler); avoid lists names that locals declared by the callee must not keep.
+func (n *normalizer) bodyTextX(fd *ast.FuncDecl, file *ast.File, prefix string, subst map[types.Object]string, retStmt func(results string, nres int) string, retTail func(z *ast.ReturnStmt) (string, bool), avoid map[string]bool) (string, bool) {
 	src := n.src[n.fset.Position(file.Pos()).Filename]
 	info := n.pkg.TypesInfo
 	params := map[types.Object]bool{}
@@ -211,6 +218,17 @@ func (n *normalizer) bodyText(fd *ast.FuncDecl, file *ast.File, prefix string, s
 						rep = t
 					}
 					edits = append(edits, textEdit{n.off(z.Pos()) - base, n.off(z.End()) - base, rep})
+				} else if avoid != nil && avoid[z.Name] {
+					// a local of the callee whose name means something else at the call site
+					o := info.Uses[z]
+					if o == nil {
+						o = info.Defs[z]
+					}
+					if v, isVar := o.(*types.Var); isVar && !v.IsField() && v.Parent() != nil && v.Parent() != n.pkg.Types.Scope() && v.Parent() != types.Universe && !params[o] {
+						if fd.Body.Pos() <= v.Pos() && v.Pos() <= fd.Body.End() {
+							edits = append(edits, textEdit{n.off(z.Pos()) - base, n.off(z.End()) - base, prefix + z.Name})
+						}
+					}
 				}
 			case *ast.ReturnStmt:
 				if inLit {
@@ -222,7 +240,13 @@ func (n *normalizer) bodyText(fd *ast.FuncDecl, file *ast.File, prefix string, s
 					edits = append(edits, textEdit{kw, kw + len("return"), "{ " + retStmt("", 0) + " }"})
 				} else {
 					edits = append(edits, textEdit{kw, kw + len("return"), "{ " + retStmt("\x00", len(z.Results))})
-					edits = append(edits, textEdit{n.off(z.End()) - base, n.off(z.End()) - base, "\x01 }"})
+					tail := "\x01 }"
+					if retTail != nil {
+						if t, ok := retTail(z); ok {
+							tail = "\n" + t + "\n}"
+						}
+					}
+					edits = append(edits, textEdit{n.off(z.End()) - base, n.off(z.End()) - base, tail})
 				}
 			}
 			return true
@@ -327,7 +351,7 @@ func (n *normalizer) declaredNames(fd *ast.FuncDecl) map[string]bool {
 	return out
 }
 
-func identsOf(e ast.Expr) []string {
+func identsOf(e ast.Node) []string {
 	var out []string
 	ast.Inspect(e, func(x ast.Node) bool {
 		if id, ok := x.(*ast.Ident); ok {
@@ -368,7 +392,92 @@ func (n *normalizer) isTarget(call *ast.CallExpr) bool {
 
 // inlineCall renders "var r0 T0 ...; { bindings; L: for { body; break L } }" for one call
 // and returns the names of the result temporaries.
+// inlineOpts: the call is the right-hand side of `x, err := f(...)` directly followed by
+// `if err != nil { <terminating handler> }`: results are assigned to the targets directly and
+// returns of the callee that certainly carry a non-nil error run the handler right away.
+type inlineOpts struct {
+	targets []string
+	handler string
+	avoid   map[string]bool
+}
+
 func (n *normalizer) inlineCall(call *ast.CallExpr, file *ast.File, at token.Pos) (string, []string, bool) {
+	return n.inlineCallX(call, file, at, nil)
+}
+
+// retErrKind classifies the error operand of a return statement of fd: "ok" (nil), "fail"
+// (certainly non-nil) or "unknown".
+func (n *normalizer) retErrKind(fd *ast.FuncDecl, z *ast.ReturnStmt, nres int) string {
+	if len(z.Results) != nres || nres == 0 {
+		return "unknown"
+	}
+	info := n.pkg.TypesInfo
+	last := z.Results[nres-1]
+	switch x := last.(type) {
+	case *ast.Ident:
+		if _, isNil := info.Uses[x].(*types.Nil); isNil {
+			return "ok"
+		}
+		if c, isConst := info.Uses[x].(*types.Const); isConst && c.Parent() == types.Universe {
+			switch x.Name {
+			case "true":
+				return "ok"
+			case "false":
+				return "fail"
+			}
+		}
+		if v, ok := info.Uses[x].(*types.Var); ok {
+			if v.Parent() == n.pkg.Types.Scope() {
+				return "fail" // package-level error value
+			}
+			// inside `if v != nil { ... return ..., v }`
+			found := false
+			var stack []ast.Node
+			ast.Inspect(fd.Body, func(y ast.Node) bool {
+				if y == nil {
+					stack = stack[:len(stack)-1]
+					return true
+				}
+				stack = append(stack, y)
+				if y == ast.Node(z) {
+					for i := len(stack) - 2; i >= 0; i-- {
+						ifs, ok := stack[i].(*ast.IfStmt)
+						if !ok || i+1 >= len(stack) || stack[i+1] != ast.Node(ifs.Body) {
+							continue
+						}
+						if be, ok := ifs.Cond.(*ast.BinaryExpr); ok && be.Op == token.NEQ {
+							if id, ok := be.X.(*ast.Ident); ok && info.Uses[id] == types.Object(v) {
+								if nid, ok := be.Y.(*ast.Ident); ok {
+									if _, isNil := info.Uses[nid].(*types.Nil); isNil {
+										found = true
+									}
+								}
+							}
+						}
+					}
+				}
+				return true
+			})
+			if found {
+				return "fail"
+			}
+		}
+	case *ast.CallExpr:
+		if sel, ok := x.Fun.(*ast.SelectorExpr); ok {
+			if id, ok := sel.X.(*ast.Ident); ok {
+				if pn, ok := info.Uses[id].(*types.PkgName); ok {
+					full := pn.Imported().Path() + "." + sel.Sel.Name
+					if full == "errors.New" || full == "fmt.Errorf" {
+						return "fail"
+					}
+				}
+			}
+		}
+	}
+	return "unknown"
+}
+
+func (n *normalizer) inlineCallX(call *ast.CallExpr, file *ast.File, at token.Pos, opts *inlineOpts) (string, []string, bool) {
 	info := n.pkg.TypesInfo
 	fn, recvExpr := n.staticCallee(call)
 	if fn == nil || fn.Pkg() != n.pkg.Types || knownFuncs[fn.FullName()] {
@@ -435,10 +544,17 @@ func (n *normalizer) inlineCall(call *ast.CallExpr, file *ast.File, at token.Pos
 	var sb strings.Builder
 	nres := sig.Results().Len()
 	var temps []string
-	for i := 0; i < nres; i++ {
-		t := fmt.Sprintf("%sr%d", prefix, i)
-		temps = append(temps, t)
-		fmt.Fprintf(&sb, "var %s %s\n_ = %s\n", t, types.TypeString(sig.Results().At(i).Type(), q), t)
+	if opts != nil {
+		if len(opts.targets) != nres {
+			return "", nil, false
+		}
+		temps = opts.targets
+	} else {
+		for i := 0; i < nres; i++ {
+			t := fmt.Sprintf("%sr%d", prefix, i)
+			temps = append(temps, t)
+			fmt.Fprintf(&sb, "var %s %s\n_ = %s\n", t, types.TypeString(sig.Results().At(i).Type(), q), t)
+		}
 	}
 	sb.WriteString("{\n")
 	assigned := n.assignedParams(fd)
@@ -529,13 +645,26 @@ func (n *normalizer) inlineCall(call *ast.CallExpr, file *ast.File, at token.Pos
 		}
 		return strings.Join(temps, ", ") + " = " + results
 	}
-	body, ok := n.bodyText(fd, cfile, prefix, subst, retStmt)
+	var retTail func(z *ast.ReturnStmt) (string, bool)
+	var avoid map[string]bool
+	if opts != nil {
+		avoid = opts.avoid
+		retTail = func(z *ast.ReturnStmt) (string, bool) {
+			if n.retErrKind(fd, z, nres) == "fail" {
+				return opts.handler, true
+			}
+			return "", false
+		}
+		// substituted argument text must not mention names that callee locals will be renamed away from... it cannot: it is caller text
+	}
+	body, ok := n.bodyTextX(fd, cfile, prefix, subst, retStmt, retTail, avoid)
 	if !ok {
 		return "", nil, false
 	}
 	body = strings.ReplaceAll(body, "\x00", "")
 	body = strings.ReplaceAll(body, "\x01", "; break "+label)
-	fmt.Fprintf(&sb, "%s:\nfor {\n%s\nbreak %s\n}\n}\n", label, body, label)
+	// a labeled switch (not a loop): `continue` inside a copied failure handler still means the caller's loop
+	fmt.Fprintf(&sb, "%s:\nswitch {\ndefault:\n%s\nbreak %s\n}\n}\n", label, body, label)
 	n.log = append(n.log, fmt.Sprintf("%s: inlined %s", n.fset.Position(call.Pos()), fn.FullName()))
 	return sb.String(), temps, true
 }
@@ -778,8 +907,147 @@ func (n *normalizer) rewriteStmt(st ast.Stmt, file *ast.File) (string, bool) {
 	return "{\n" + pre.String() + stmtText + "\n}\n", true
 }
 
+// terminating: the block always leaves the enclosing straight-line code.
+func terminating(b *ast.BlockStmt) bool {
+	if len(b.List) == 0 {
+		return false
+	}
+	switch x := b.List[len(b.List)-1].(type) {
+	case *ast.ReturnStmt:
+		return true
+	case *ast.BranchStmt:
+		return x.Tok == token.CONTINUE || x.Tok == token.BREAK || x.Tok == token.GOTO
+	case *ast.ExprStmt:
+		if c, ok := x.X.(*ast.CallExpr); ok {
+			if id, ok := c.Fun.(*ast.Ident); ok && id.Name == "panic" {
+				return true
+			}
+		}
+	}
+	return false
+}
+
+// rewriteErrChecked handles `lhs..., err (:)= f(...)` followed by `if err != nil { handler }`.
+// It returns the text replacing both statements.
+func (n *normalizer) rewriteErrChecked(as *ast.AssignStmt, ifst *ast.IfStmt, file *ast.File) (string, bool) {
+	info := n.pkg.TypesInfo
+	if len(as.Rhs) != 1 || (as.Tok != token.ASSIGN && as.Tok != token.DEFINE) || len(as.Lhs) < 1 {
+		return "", false
+	}
+	call, ok := as.Rhs[0].(*ast.CallExpr)
+	if !ok || !n.isTarget(call) {
+		return "", false
+	}
+	for _, a := range call.Args {
+		if ts, _ := n.hoistTargets([]ast.Expr{a}); len(ts) > 0 {
+			return "", false
+		}
+	}
+	errId, ok := as.Lhs[len(as.Lhs)-1].(*ast.Ident)
+	if !ok || errId.Name == "_" {
+		return "", false
+	}
+	var errObj types.Object
+	if o := info.Defs[errId]; o != nil {
+		errObj = o
+	} else {
+		errObj = info.Uses[errId]
+	}
+	if errObj == nil {
+		return "", false
+	}
+	if ifst.Init != nil || ifst.Else != nil || !terminating(ifst.Body) {
+		return "", false
+	}
+	isErr := types.Identical(errObj.Type(), types.Universe.Lookup("error").Type())
+	isBool := false
+	if b, ok := errObj.Type().Underlying().(*types.Basic); ok && b.Kind() == types.Bool {
+		isBool = true
+	}
+	switch {
+	case isErr:
+		be, ok := ifst.Cond.(*ast.BinaryExpr)
+		if !ok || be.Op != token.NEQ {
+			return "", false
+		}
+		cx, ok := be.X.(*ast.Ident)
+		if !ok || info.Uses[cx] != errObj {
+			return "", false
+		}
+		if ny, ok := be.Y.(*ast.Ident); !ok || info.Uses[ny] == nil {
+			return "", false
+		} else if _, isNil := info.Uses[ny].(*types.Nil); !isNil {
+			return "", false
+		}
+	case isBool:
+		ue, ok := ifst.Cond.(*ast.UnaryExpr)
+		if !ok || ue.Op != token.NOT {
+			return "", false
+		}
+		cx, ok := ue.X.(*ast.Ident)
+		if !ok || info.Uses[cx] != errObj {
+			return "", false
+		}
+	default:
+		return "", false
+	}
+	// a `break`/`continue` in the handler would bind to the inlined block's own loop
+	bad := false
+	ast.Inspect(ifst.Body, func(x ast.Node) bool {
+		switch y := x.(type) {
+		case *ast.BranchStmt:
+			if y.Tok == token.BREAK && y.Label == nil {
+				bad = true
+			}
+		case *ast.ForStmt, *ast.RangeStmt, *ast.SwitchStmt, *ast.SelectStmt, *ast.TypeSwitchStmt, *ast.FuncLit:
+			return false
+		}
+		return true
+	})
+	fname := n.fset.Position(file.Pos()).Filename
+	src := n.src[fname]
+	text := func(e ast.Node) string { return string(src[n.off(e.Pos()):n.off(e.End())]) }
+	handler := string(src[n.off(ifst.Body.Lbrace)+1 : n.off(ifst.Body.Rbrace)])
+	if bad {
+		// unlabeled continue/break of the caller's loop: not expressible inside the helper's block
+		return "", false
+	}
+	avoid := map[string]bool{}
+	for _, nm := range identsOf(ifst.Body) {
+		avoid[nm] = true
+	}
+	var pre strings.Builder
+	var targets []string
+	var q types.Qualifier
+	var missing []*types.Package
+	q = n.qualifierFor(file, &missing)
+	for _, l := range as.Lhs {
+		targets = append(targets, text(l))
+		for _, nm := range identsOf(l) {
+			avoid[nm] = true
+		}
+		if id, isId := l.(*ast.Ident); isId && as.Tok == token.DEFINE && id.Name != "_" {
+			if o := info.Defs[id]; o != nil {
+				fmt.Fprintf(&pre, "var %s %s\n_ = %s\n", id.Name, types.TypeString(o.Type(), q), id.Name)
+			}
+		}
+	}
+	if len(missing) > 0 {
+		return "", false
+	}
+	txt, _, ok := n.inlineCallX(call, file, as.Pos(), &inlineOpts{targets: targets, handler: handler, avoid: avoid})
+	if !ok {
+		return "", false
+	}
+	return pre.String() + txt + text(ifst) + "\n", true
+}
+
 // collectStmts lists the simple statements of a body (not descending into rewritten ones later).
 func collectStmts(body *ast.BlockStmt, out *[]ast.Stmt) {
+	collectStmtsX(body, out, nil)
+}
+
+func collectStmtsX(body *ast.BlockStmt, out *[]ast.Stmt, next map[ast.Stmt]ast.Stmt) {
 	var visitBlock func(list []ast.Stmt)
 	var visitStmt func(st ast.Stmt)
 	visitStmt = func(st ast.Stmt) {
@@ -814,7 +1082,10 @@ func collectStmts(body *ast.BlockStmt, out *[]ast.Stmt) {
 		}
 	}
 	visitBlock = func(list []ast.Stmt) {
-		for _, st := range list {
+		for i, st := range list {
+			if next != nil && i+1 < len(list) {
+				next[st] = list[i+1]
+			}
 			visitStmt(st)
 		}
 	}
@@ -827,15 +1098,16 @@ func (n *normalizer) normalizePackage() map[string][]byte {
 	for _, f := range n.pkg.Syntax {
 		fname := n.fset.Position(f.Pos()).Filename
 		var stmts []ast.Stmt
+		next := map[ast.Stmt]ast.Stmt{}
 		for _, d := range f.Decls {
 			fd, ok := d.(*ast.FuncDecl)
 			if !ok || fd.Body == nil {
 				continue
 			}
-			collectStmts(fd.Body, &stmts)
+			collectStmtsX(fd.Body, &stmts, next)
 			ast.Inspect(fd.Body, func(x ast.Node) bool {
 				if fl, ok := x.(*ast.FuncLit); ok {
-					collectStmts(fl.Body, &stmts)
+					collectStmtsX(fl.Body, &stmts, next)
 				}
 				return true
 			})
@@ -846,6 +1118,16 @@ func (n *normalizer) normalizePackage() map[string][]byte {
 		for _, st := range stmts {
 			if st.Pos() < lastEnd {
 				continue // inside a statement rewritten in this round
+			}
+			// `x, err := helper(...)` followed by `if err != nil { ... }`
+			if as, isAs := st.(*ast.AssignStmt); isAs {
+				if ifst, isIf := next[st].(*ast.IfStmt); isIf {
+					if txt, ok := n.rewriteErrChecked(as, ifst, f); ok {
+						edits = append(edits, textEdit{n.off(st.Pos()), n.off(ifst.End()), txt})
+						lastEnd = ifst.End()
+						continue
+					}
+				}
 			}
 			// statements declaring variables for the following statements cannot be wrapped in a block
 			txt, ok := n.rewriteStmt(st, f)
